@@ -73,11 +73,12 @@ type Conn struct {
 	// CONNECT) it owes the connection an answer or a close; until then the connection is not
 	// quiet even if a reader is already parked (the session's serve loop starts reading before
 	// the setup worker has written the CONNACK)
-	onWrite   func()
-	head      []byte // first bytes consumed (at most 5)
-	consumed  int64
-	frameLen  int64 // total length of the first frame; 0 = not known yet, -1 = malformed length
-	wroteOnce bool
+	onWrite     func()
+	stallWrites bool
+	head        []byte // first bytes consumed (at most 5)
+	consumed    int64
+	frameLen    int64 // total length of the first frame; 0 = not known yet, -1 = malformed length
+	wroteOnce   bool
 }
 
 func NewConn(name string, clk *Clock, activity *int64) *Conn {
@@ -118,6 +119,15 @@ func (c *Conn) Read(p []byte) (int, error) {
 	}
 }
 
+// StallWrites makes the broker's writes to this connection block (a client that stays
+// connected but stops reading, with full transport buffers) until it is switched off again.
+func (c *Conn) StallWrites(on bool) {
+	c.mu.Lock()
+	c.stallWrites = on
+	c.cond.Broadcast()
+	c.mu.Unlock()
+}
+
 // OnNextWrite arms a one-shot hook that runs at the start of the broker's next write to this
 // connection, outside the connection's lock (so that it may close the client side and wait
 // for the broker to notice): a connection that dies exactly while something is written to it.
@@ -136,6 +146,9 @@ func (c *Conn) Write(p []byte) (int, error) {
 		c.mu.Lock()
 	}
 	defer c.mu.Unlock()
+	for c.stallWrites && !c.brokerClosed && !c.clientClosed {
+		c.cond.Wait() // the peer does not read and every buffer on the way is full
+	}
 	if c.brokerClosed {
 		c.writesAfterClose++
 		return 0, errClosed
